@@ -178,6 +178,7 @@ func (m *moduleEngine) NewFunction(index wasm.Index) api.Function {
 		sizeOfParamResultSlice: sizeOfParamResultSlice,
 		requiredParams:         typ.ParamNumInUint64,
 		numberOfResults:        typ.ResultNumInUint64,
+		resultTypes:            typ.Results,
 	}
 
 	ce.execCtx.memoryGrowTrampolineAddress = &m.parent.sharedFunctions.memoryGrowExecutable[0]
